@@ -2,13 +2,14 @@ SPECIFICATION Spec
 CONSTANT KernelCodes = {101, 103, 303, 205, 901, 707}
 CONSTANT StrideCodes = {11, 22, 13}
 CONSTANT IfmDepths = {3, 12, 40}
-CONSTANT GridW = {1, 2, 3, 4, 5, 6, 7, 8, 12, 16, 32, 64}
-CONSTANT GridH = {1, 2, 3, 4, 5, 6, 7, 8, 12, 16, 32}
-CONSTANT GridD = {1, 2, 3, 4, 6, 8, 16, 32}
-CONSTANT ShapeH = {1, 2, 3, 5, 8, 16, 33}
-CONSTANT ShapeW = {1, 2, 3, 7, 16, 65}
-CONSTANT ShapeD = {1, 3, 8, 17, 24, 64, 130}
+CONSTANT GridW = {1, 2, 3, 4, 5, 6, 7, 8, 16, 64}
+CONSTANT GridH = {1, 2, 3, 4, 8, 16, 32}
+CONSTANT GridD = {1, 2, 3, 4, 16}
+CONSTANT ShapeH = {1, 2, 5, 16, 33}
+CONSTANT ShapeW = {1, 3, 16, 65}
+CONSTANT ShapeD = {1, 3, 8, 17, 64, 130}
 CONSTANT Tighten = 0
 INVARIANT LayoutValid
 INVARIANT CandidatesLegal
+CONSTRAINT Frontier
 CHECK_DEADLOCK FALSE
